@@ -117,6 +117,49 @@ def random_history(rng, k, length, nonnode=True):
     return ops
 
 
+def reentrant_histories(rng, tier):
+    """hooks that are not mere observers: at one invocation the hook detaches ANOTHER node (a sibling under the old or
+    the new parent, a child about to be detached anyway, an unrelated node) - `x.parent = None` from inside the hook.
+    Outside what the mirror's hooks can do (they observe or raise); for the final forest such a call equals the nested
+    call followed by the outer one, which is what the driver is asked to run (`pre_ops`). Only calls that succeed and
+    fire hooks; the nested call never touches the node(s) the outer call is moving. Yields (n0, ops)."""
+    import core
+    bases = []
+    for _ in range(150 if tier == "quick" else 2000):
+        n0 = rng.randrange(4, 8)
+        def call():
+            while True:
+                o = random_call(rng, n0, False)
+                if o["op"] != "ctor":
+                    return o
+        hist = [call() for _ in range(rng.randrange(2, 8))]
+        final = call()
+        bases.append((n0, hist, final))
+    res = core.run_driver([dict(mk("nm", False, n0, hist + [final], cls="mixin"), loglevel=1) for n0, hist, final in bases])
+    for (n0, hist, final), r in zip(bases, res):
+        mir = r["mirror"]
+        last = mir[-1]
+        if last["res"] != "ok" or not last["log"]:
+            continue
+        pre = mir[-2]["snap"] if len(mir) >= 2 else [[None, []] for _ in range(n0)]
+        k = final["op"]
+        moving = {final["n"]} | (set(final["xs"]) if k == "sc" else set())
+        cands = [y for y in range(n0) if pre[y][0] is not None and y not in moving]
+        if not cands:
+            continue
+        for _ in range(2):
+            y = rng.choice(cands)
+            idx = [i for i, e in enumerate(last["log"]) if e[1] != y]
+            if not idx:
+                continue
+            i = rng.choice(idx)
+            yield n0, hist + [dict(final, faults={"reenter": {"at": i, "y": y}}, pre_ops=[{"op": "sp", "n": y, "v": None}])]
+
+
+def is_reentrant(case):
+    return any("reenter" in (o.get("faults") or {}) for o in case.get("ops", []))
+
+
 def wide_histories(rng, tier, faults=True, pre_only=False):
     """scale: a node with W children (W straddling the usual cut-offs), then one call on it - deletion, replacement,
     extension, reversal, a single child moved or detached - optionally with a hook raising ONCE at an early, a middle
